@@ -116,6 +116,11 @@ func (fh *fshandler) Download(url string) (*types.FileDef, media.ReadSeekCloser,
 		return nil, nil, err
 	}
 
+	if fd.Status != types.UploadCompleted {
+		// The upload is still in progress or has failed: nothing to serve yet.
+		return nil, nil, types.ErrNotFound
+	}
+
 	file, err := os.Open(fd.Location)
 	if err != nil {
 		if os.IsNotExist(err) {
